@@ -40,7 +40,7 @@ def run_case(run, drv, case):
         state = {rel: b.bytes() for rel, b in files}
         ref = rc.reference(raw, case["single"], state, files)
         pads = 0
-        if case["version"] == 1 and (case.get("align") or case.get("attrs")):
+        if case["version"] == 1 and (case.get("align") or case.get("attrs") or case.get("pad_to")):
             info0 = refspec.lenient_decode(raw)[b"info"]
             pads = sum(e[b"length"] for e in info0.get(b"files", []) if b"p" in e.get(b"attr", b""))
         if not all(ok for ok, _ in ref) or sum(s for _, s in ref) != total + pads:
@@ -289,6 +289,17 @@ def run(tier, seed, replay=None):
                                     ("d/c", _Bl.rand(5, 7).token())], "pl": 16384, "version": version,
                           "single": False, "source": "ref", "creator": "v1", "via_parent": False, "damage": [],
                           "attrs": {"a": "x", "d/b": "xh", "d/c": "h"}})
+    if not replay:
+        from harness.common import Blob as _Bl3
+        cases.append({"files": [("a", _Bl3.rand(3, 20000).token()), ("b", _Bl3.rand(4, 70000).token()),
+                                ("c", _Bl3.rand(5, 5).token())], "pl": 65536, "version": 1, "single": False,
+                      "source": "ref", "creator": "v1", "via_parent": False, "damage": [], "pad_to": 16384})
+    if not replay:
+        from harness.common import Blob as _Bl2
+        for plx in (8192, 10000, 49152, 98304, 4096):
+            cases.append({"files": [("a", _Bl2.rand(3, 30000).token()), ("d/b", _Bl2.rand(4, 12345).token())],
+                          "pl": plx, "version": 1, "single": False, "source": "ref", "creator": "v1",
+                          "via_parent": False, "damage": [], "odd_piece_length": True})
     for case in cases:
         if case.get("big_piece") or case.get("many_files"):
             continue
